@@ -310,6 +310,16 @@ def divmod (p other : Poly) : Option (Poly × Poly) :=
   else if (leadTerm other).2 = 0 then none
   else divmodLoop other (p.length + (degree p).toNat + 2) [] p
 
+/-- `Polynomial.__divmod__` (same base, integer coefficients) EXACTLY as coded: the division by
+the leading coefficient of `other` happens inside the loop, so a STORED ZERO leading coefficient of
+`other` (reachable through `poly * 0`) raises `ZeroDivisionError` only when the loop is entered,
+i.e. when `self.degree >= other.degree`; otherwise `(0, self)` is returned.  Agrees with `divmod`
+whenever the leading coefficient of `other` is not zero (`divmodPy_eq_divmod`). -/
+def divmodPy (p other : Poly) : Option (Poly × Poly) :=
+  if degree other = -1 then none
+  else if (leadTerm other).2 = 0 then (if degree p ≥ degree other then none else some ([], p))
+  else divmodLoop other (p.length + (degree p).toNat + 2) [] p
+
 /-! ## `EvaluationMapper.map_polynomial` (Horner) -/
 
 /-- The `for` loop of `map_polynomial` over `rev_data = data[::-1]`, exact on Python ints:
@@ -344,5 +354,40 @@ def hornerLoop (x : Int) (result : Int) : List Term → Int
     hornerLoop x ((result + c) * x ^ (e - nextExp)) rest
 
 def evalHorner (p : Poly) (x : Int) : Int := hornerLoop x 0 p.reverse
+
+
+/-! ## `IdentityMapper.map_polynomial`, `Rational.__init__` -/
+
+/-- `IdentityMapper.map_polynomial`.  Expression objects are modelled by their names (`rec` maps a
+name to the name of the object it returns; "the same object" is "the same name").  The base and
+EVERY coefficient go through `rec`; `none` stands for "`expr` itself is returned", which happens
+when the base and ALL coefficients came back identical:
+```
+        base = self.rec(expr.base, *args, **kwargs)
+        data = tuple([(exp, self.rec(coeff, *args, **kwargs)) for exp, coeff in expr.data])
+        if base is expr.base and all(t[1] is orig_t[1] for t, orig_t in zip(data, expr.data)):
+            return expr
+        return expr.__class__(base, data)
+``` -/
+def c19IdentMapPoly (rec : String → String) (base : String) (data : List (Nat × String)) :
+    Option (String × List (Nat × String)) :=
+  if rec base = base ∧ data.all (fun t => rec t.2 == t.2) = true then none
+  else some (rec base, data.map fun t => (t.1, rec t.2))
+
+/-- what the caller holds after `map_polynomial`: base and data of the returned polynomial -/
+def c19IdentMapPolyResult (rec : String → String) (base : String) (data : List (Nat × String)) :
+    String × List (Nat × String) :=
+  match c19IdentMapPoly rec base data with
+  | none => (base, data)
+  | some r => r
+
+/-- `Rational.__init__(numerator, denominator)` on Python ints: both are divided (TRUE division,
+the quotients are floats — idealised here as the exact fractions `num / unit`, `den / unit`) by the
+unit of the denominator, `IntegerTraits.get_unit` (`-1` / `1`, `RuntimeError` for `0`: `none`).
+No reduction to lowest terms happens. -/
+def c19RationalInit (num den : Int) : Option ((Int × Int) × (Int × Int)) :=
+  if den < 0 then some ((num, -1), (den, -1))
+  else if den > 0 then some ((num, 1), (den, 1))
+  else none
 
 end PV.Algo
